@@ -6,6 +6,7 @@ import (
 	"errors"
 	"fmt"
 	"io"
+	"math/bits"
 	"math/rand"
 	"os"
 	"regexp"
@@ -60,13 +61,19 @@ type c09Case struct {
 	Pattern string
 	Lists   bool  // repeated payload column sorting before the keys
 	Seeks   []int // path rows: forward seeks (distance in rows) interleaved with the reads
-	Nest    string // "" = one flat merge; otherwise the tree of merges, e.g. [[0,1],2,[3,[4,5]]]: inner
+	Evolve  uint  // != 0: the merge's schema has one more optional column z_new; bit i set = input i was written
+	// without it (an older schema) and is converted by the merge; an inner merge of a nest whose leaves all
+	// lack the column is made in the older schema, so that its result is converted by the enclosing merge
+	DedupeIn bool // nests: the inner merges drop duplicated rows, the outermost does not (its inputs are
+	// deduplicating views: one row per key of the leaves below each inner merge)
+	Nest string // "" = one flat merge; otherwise the tree of merges, e.g. [[0,1],2,[3,[4,5]]]: inner
 	// lists are merged first (same options / comparator) and their result is an input of the enclosing merge
 
-	seekOut []c09Pos
-	seekEOF int
-	planReq string // request for the Lean mirror of the planner (set by c09Run)
-	factKey, factWhat string // a violated hypothesis of the planner theorems (set by c09Run)
+	seekOut           []c09Pos
+	seekEOF           int
+	planReq           string      // request for the Lean mirror of the planner (set by c09Run)
+	factKey, factWhat string      // a violated hypothesis of the planner theorems (set by c09Run)
+	shapes            [][2]string // row-group trees met by c09Run: prefix text, real answers of the three predicates
 }
 
 func (c *c09Case) sortCols() int {
@@ -103,6 +110,16 @@ func (c *c09Case) canon() string {
 		fmt.Fprintf(&sb, "col(opt=%v,desc=%v,nf=%v) ", col.Opt, col.Desc, col.NF)
 	}
 	fmt.Fprintf(&sb, "mcols=%d storage=%s pagebuf=%d batches=%v dedupe=%v path=%s lists=%v seeks=%v ", c.MCols, c.Storage, c.PageBuf, c.Batches, c.Dedupe, c.Path, c.Lists, c.Seeks)
+	if c.Evolve != 0 {
+		sb.WriteString("evolve=")
+		for i := range c.Inputs {
+			sb.WriteByte('0' + byte(c.Evolve>>i&1))
+		}
+		sb.WriteByte(' ')
+	}
+	if c.DedupeIn {
+		sb.WriteString("inner-dedupe ")
+	}
 	if c.Nest != "" {
 		fmt.Fprintf(&sb, "nest=%s ", c.Nest)
 	}
@@ -165,8 +182,14 @@ func c09Schema(cols []c09Col) *parquet.Schema { return c09SchemaL(cols, false) }
 
 // lists = true adds a repeated payload column "a_list" that sorts before the key columns by name
 // (the merged schema orders fields by name): 0..4 values per row, derived from the hidden payload
-func c09SchemaL(cols []c09Col, lists bool) *parquet.Schema {
+func c09SchemaL(cols []c09Col, lists bool) *parquet.Schema { return c09SchemaE(cols, lists, false) }
+
+// extra = true adds the optional column z_new (last by name), see c09Case.Evolve
+func c09SchemaE(cols []c09Col, lists, extra bool) *parquet.Schema {
 	g := parquet.Group{"x_inp": parquet.Int(32), "y_seq": parquet.Int(32)}
+	if extra {
+		g["z_new"] = parquet.Optional(parquet.Int(64))
+	}
 	if lists {
 		g["a_list"] = parquet.Repeated(parquet.Int(32))
 	}
@@ -225,7 +248,14 @@ func c09Sorting(cols []c09Col, n int) []parquet.SortingColumn {
 func c09ToRow(cols []c09Col, r c09Row) parquet.Row { return c09ToRowL(cols, r, false) }
 
 func c09ToRowL(cols []c09Col, r c09Row, lists bool) parquet.Row {
-	row := make(parquet.Row, 0, len(cols)+7)
+	return c09ToRowE(cols, r, lists, false)
+}
+
+// the value of the column z_new of a row written with it
+func c09Extra(inp, seq int32) int64 { return int64(inp)*100000 + int64(seq) - 7 }
+
+func c09ToRowE(cols []c09Col, r c09Row, lists, extra bool) parquet.Row {
+	row := make(parquet.Row, 0, len(cols)+8)
 	off := 0
 	if lists {
 		off = 1
@@ -260,13 +290,16 @@ func c09ToRowL(cols []c09Col, r c09Row, lists bool) parquet.Row {
 	}
 	row = append(row, parquet.Int32Value(r.Inp).Level(0, 0, len(cols)+off))
 	row = append(row, parquet.Int32Value(r.Seq).Level(0, 0, len(cols)+1+off))
+	if extra {
+		row = append(row, parquet.Int64Value(c09Extra(r.Inp, r.Seq)).Level(0, 1, len(cols)+2+off))
+	}
 	return row
 }
 
 func c09FromRow(ncols int, row parquet.Row) (c09Row, error) { return c09FromRowL(ncols, row, false) }
 
 func c09FromRowL(ncols int, row parquet.Row, lists bool) (c09Row, error) {
-	return c09FromRowW(ncols, 0, row, lists)
+	return c09FromRowW(ncols, 0, 0, row, lists)
 }
 
 // bit j of the result: key column j sits in an optional group
@@ -279,16 +312,21 @@ func c09WrapMask(cols []c09Col) (m uint) {
 	return m
 }
 
-func c09FromRowW(ncols int, wrapped uint, row parquet.Row, lists bool) (c09Row, error) {
+// evolve != 0: the rows have the column z_new; it is null in the rows of the inputs named by evolve
+func c09FromRowW(ncols int, wrapped, evolve uint, row parquet.Row, lists bool) (c09Row, error) {
 	var r c09Row
-	off := 0
+	off, extra := 0, 0
+	if evolve != 0 {
+		extra = 1
+	}
 	var list []int32
 	if lists {
 		off = 1
-	} else if len(row) != ncols+2 {
-		return r, fmt.Errorf("row has %d values, want %d", len(row), ncols+2)
+	} else if len(row) != ncols+2+extra {
+		return r, fmt.Errorf("row has %d values, want %d", len(row), ncols+2+extra)
 	}
 	seen := 0
+	var z parquet.Value
 	for _, v := range row {
 		c := v.Column() - off
 		switch {
@@ -297,8 +335,10 @@ func c09FromRowW(ncols int, wrapped uint, row parquet.Row, lists bool) (c09Row, 
 				list = append(list, v.Int32())
 			}
 			continue
-		case c < 0 || c >= ncols+2:
+		case c < 0 || c >= ncols+2+extra:
 			return r, fmt.Errorf("value with column index %d", v.Column())
+		case c == ncols+2:
+			z = v
 		case c < ncols:
 			if v.IsNull() {
 				r.Null[c] = true
@@ -313,8 +353,13 @@ func c09FromRowW(ncols int, wrapped uint, row parquet.Row, lists bool) (c09Row, 
 		}
 		seen++
 	}
-	if seen != ncols+2 {
-		return r, fmt.Errorf("row has %d non-list values, want %d", seen, ncols+2)
+	if seen != ncols+2+extra {
+		return r, fmt.Errorf("row has %d non-list values, want %d", seen, ncols+2+extra)
+	}
+	if extra == 1 && r.Inp >= 0 && r.Inp < 32 {
+		if lacks := evolve>>uint(r.Inp)&1 == 1; lacks != z.IsNull() || (!lacks && z.Int64() != c09Extra(r.Inp, r.Seq)) {
+			return r, fmt.Errorf("column z_new of row (%d,%d) altered: %v (written without the column: %v)", r.Inp, r.Seq, z, lacks)
+		}
 	}
 	if lists && fmt.Sprint(list) != fmt.Sprint(c09List(r.Inp, r.Seq)) {
 		return r, fmt.Errorf("list payload of row (%d,%d) altered: %v, written %v", r.Inp, r.Seq, list, c09List(r.Inp, r.Seq))
@@ -356,10 +401,14 @@ func (c *c09ChunkReader) ReadRows(dst []parquet.Row) (int, error) {
 
 // build one input as a row group
 func c09RowGroup(c *c09Case, schema *parquet.Schema, in []c09Row, asFile bool) (parquet.RowGroup, error) {
+	return c09RowGroupE(c, schema, in, asFile, false)
+}
+
+func c09RowGroupE(c *c09Case, schema *parquet.Schema, in []c09Row, asFile, extra bool) (parquet.RowGroup, error) {
 	sorting := c09Sorting(c.Cols, len(c.Cols))
 	rows := make([]parquet.Row, len(in))
 	for i, r := range in {
-		rows[i] = c09ToRowL(c.Cols, r, c.Lists)
+		rows[i] = c09ToRowE(c.Cols, r, c.Lists, extra)
 	}
 	if !asFile || len(in) == 0 {
 		b := parquet.NewBuffer(schema, parquet.SortingRowGroupConfig(parquet.SortingColumns(sorting...)))
@@ -405,7 +454,7 @@ func c09Drain(c *c09Case, rr parquet.RowReader, limit int) ([]c09Row, [][2]int, 
 			return out, calls, fmt.Errorf("ReadRows returned n=%d for a buffer of %d", n, b)
 		}
 		for _, row := range buf[:n] {
-			r, derr := c09FromRowW(len(c.Cols), c09WrapMask(c.Cols), row, c.Lists)
+			r, derr := c09FromRowW(len(c.Cols), c09WrapMask(c.Cols), c.Evolve, row, c.Lists)
 			if derr != nil {
 				return out, calls, derr
 			}
@@ -464,7 +513,7 @@ func c09DrainSeek(c *c09Case, rows parquet.Rows, limit int) (out []c09Pos, eofAt
 				return
 			}
 			for _, row := range buf[:n] {
-				rw, derr := c09FromRowW(len(c.Cols), c09WrapMask(c.Cols), row, c.Lists)
+				rw, derr := c09FromRowW(len(c.Cols), c09WrapMask(c.Cols), c.Evolve, row, c.Lists)
 				if derr != nil {
 					r.err = derr
 					return
@@ -778,12 +827,20 @@ func c09Run(c *c09Case) (out []c09Row, kind string, calls [][2]int, plan string,
 			err = fmt.Errorf("panic: %v", p)
 		}
 	}()
-	schema := c09SchemaL(c.Cols, c.Lists)
+	if c.Evolve != 0 && (c.Path == "readers" || len(c.Inputs) > 32) {
+		return nil, "", nil, "", errors.New("evolve: not on the readers path")
+	}
+	schema := c09SchemaE(c.Cols, c.Lists, c.Evolve != 0)
+	older := c09SchemaL(c.Cols, c.Lists) // the schema of the inputs written without z_new
 	total := 0
 	rgs := make([]parquet.RowGroup, len(c.Inputs))
 	for i, in := range c.Inputs {
 		asFile := c.Storage == "file" || (c.Storage == "mixed" && i%2 == 1)
-		rg, e := c09RowGroup(c, schema, in, asFile)
+		isch, extra := schema, c.Evolve != 0
+		if c.Evolve>>uint(i)&1 == 1 {
+			isch, extra = older, false
+		}
+		rg, e := c09RowGroupE(c, isch, in, asFile, extra)
 		if e != nil {
 			return nil, "", nil, "", fmt.Errorf("building input %d: %w", i, e)
 		}
@@ -791,13 +848,20 @@ func c09Run(c *c09Case) (out []c09Row, kind string, calls [][2]int, plan string,
 		total += len(in)
 	}
 	msort := c09Sorting(c.Cols, c.sortCols())
-	opts := []parquet.RowGroupOption{schema}
-	if c.MCols > 0 || c.Dedupe {
-		so := []parquet.SortingOption{parquet.DropDuplicatedRows(c.Dedupe)}
-		if c.MCols > 0 {
-			so = append(so, parquet.SortingColumns(msort...))
+	optsOf := func(schema *parquet.Schema, dedupe bool) []parquet.RowGroupOption {
+		opts := []parquet.RowGroupOption{schema}
+		if c.MCols > 0 || dedupe {
+			so := []parquet.SortingOption{parquet.DropDuplicatedRows(dedupe)}
+			if c.MCols > 0 {
+				so = append(so, parquet.SortingColumns(msort...))
+			}
+			opts = append(opts, parquet.SortingRowGroupConfig(so...))
 		}
-		opts = append(opts, parquet.SortingRowGroupConfig(so...))
+		return opts
+	}
+	opts := optsOf(schema, c.Dedupe)
+	if c.DedupeIn && (c.Nest == "" || c.MCols == 0) {
+		return nil, "", nil, "", errors.New("inner-dedupe: needs a nest and explicit sorting columns")
 	}
 	var tree *c09Tree
 	if c.Nest != "" {
@@ -834,6 +898,9 @@ func c09Run(c *c09Case) (out []c09Row, kind string, calls [][2]int, plan string,
 			for i, k := range t.kids {
 				kids[i] = build(k)
 			}
+			if c.DedupeIn && t != tree {
+				return parquet.DedupeRowReader(parquet.MergeRowReaders(kids, cmp), cmp)
+			}
 			return parquet.MergeRowReaders(kids, cmp)
 		}
 		if tree == nil {
@@ -868,7 +935,17 @@ func c09Run(c *c09Case) (out []c09Row, kind string, calls [][2]int, plan string,
 				}
 				kids[i], il = rg, il || kil
 			}
-			m, e := parquet.MergeRowGroups(kids, opts...)
+			iopts := optsOf(schema, c.Dedupe || c.DedupeIn)
+			if c.Evolve != 0 {
+				allOlder := true
+				for _, l := range t.leaves(nil) {
+					allOlder = allOlder && c.Evolve>>uint(l)&1 == 1
+				}
+				if allOlder {
+					iopts = optsOf(older, c.Dedupe || c.DedupeIn)
+				}
+			}
+			m, e := parquet.MergeRowGroups(kids, iopts...)
 			if e != nil {
 				return nil, false, fmt.Errorf("inner MergeRowGroups: %w", e)
 			}
@@ -902,6 +979,9 @@ func c09Run(c *c09Case) (out []c09Row, kind string, calls [][2]int, plan string,
 			if interleaved[i] {
 				parts[i] += "~I"
 			}
+			if c.DedupeIn && tree != nil && tree.kids[i].leaf < 0 {
+				parts[i] += "~D" // a deduplicating view: Rows() leaves out rows of the column chunks
+			}
 		}
 		if ok {
 			ts := "."
@@ -915,9 +995,50 @@ func c09Run(c *c09Case) (out []c09Row, kind string, calls [][2]int, plan string,
 	if total <= 6000 && (total+len(c.Batches))%2 == 0 {
 		c.factKey, c.factWhat = c09PlannerFacts(c, schema, msort, tops)
 	}
+	if c.factKey == "" {
+		// the null counts of the page indexes of the leaves (hasNulls of the planner's page statistics):
+		// as many nulls as the input has null keys in that column, whatever their definition level
+		off := 0
+		if c.Lists {
+			off = 1
+		}
+		for i, rg := range rgs {
+			for j := 0; j < c.sortCols() && len(c.Inputs[i]) > 0 && c.factKey == ""; j++ {
+				want := int64(0)
+				for _, r := range c.Inputs[i] {
+					if r.Null[j] {
+						want++
+					}
+				}
+				ci, err := rg.ColumnChunks()[j+off].ColumnIndex()
+				if err != nil || ci == nil {
+					continue
+				}
+				got := int64(0)
+				for p := 0; p < ci.NumPages(); p++ {
+					got += ci.NullCount(p)
+				}
+				if got != want {
+					c.factKey = "column-index-null-count"
+					c.factWhat = fmt.Sprintf("input %d (%T), key column %d: the pages of the column index count %d nulls, the input has %d null keys", i, rg, j, got, want)
+				}
+			}
+		}
+	}
 	merged, e := parquet.MergeRowGroups(tops, opts...)
 	if e != nil {
 		return nil, "", nil, "", fmt.Errorf("MergeRowGroups: %w", e)
+	}
+	c.shapes = c.shapes[:0]
+	for _, rg := range append(append([]parquet.RowGroup{}, tops...), merged) {
+		il, dr, ro := parquet.VerifRowGroupPredicates(rg)
+		b := func(x bool) string {
+			if x {
+				return "1"
+			}
+			return "0"
+		}
+		c.shapes = append(c.shapes, [2]string{parquet.VerifRowGroupShape(rg), "ok " + b(il) + " " + b(dr) + " " + b(ro)})
 	}
 	kind = parquet.VerifMergeKind(merged)
 	var segs []string
@@ -1123,6 +1244,49 @@ func c09Oracle(c *c09Case, out []c09Row) (key, what string) {
 			return "unsorted", fmt.Sprintf("output not sorted: row %d (%s) precedes row %d (%s)", i-1, out[i-1].keyText(n), i, out[i].keyText(n))
 		}
 	}
+	if !c.Dedupe && c.DedupeIn {
+		// the inputs of the outermost merge that are inner merges deliver one row per sort key of the leaves
+		// below them; the outermost merge keeps all the rows of its inputs
+		tree, err := c09ParseTree(c.Nest)
+		if err != nil {
+			return "bad-case", err.Error()
+		}
+		sortKey := func(r c09Row) string {
+			r.GNull = [3]bool{}
+			return r.keyText(n)
+		}
+		for g, kid := range tree.kids {
+			if kid.leaf >= 0 {
+				for j, k := range seen[kid.leaf] {
+					if k == 0 {
+						return "lost-row", fmt.Sprintf("input %d row %d (key %s) is missing from the output (%d rows out)", kid.leaf, j, c.Inputs[kid.leaf][j].keyText(n), len(out))
+					}
+				}
+				continue
+			}
+			below := map[int32]bool{}
+			for _, l := range kid.leaves(nil) {
+				below[int32(l)] = true
+			}
+			count := map[string]int{}
+			for _, r := range out {
+				if below[r.Inp] {
+					count[sortKey(r)]++
+				}
+			}
+			for l := range below {
+				for j, r := range c.Inputs[l] {
+					switch k := count[sortKey(r)]; {
+					case k == 0:
+						return "dedupe-lost-key", fmt.Sprintf("no output row has the sort key %s of input %d row %d (below the deduplicating input %d of the outermost merge)", r.keyText(n), l, j, g)
+					case k > 1:
+						return "deduplicated-rows-reappear", fmt.Sprintf("input %d of the outermost merge is a deduplicating merge (one row per sort key) of the leaves %s, the output has %d rows of these leaves with the sort key %s", g, kid.text(), k, r.keyText(n))
+					}
+				}
+			}
+		}
+		return "", ""
+	}
 	if !c.Dedupe {
 		for i := range seen {
 			for j, k := range seen[i] {
@@ -1214,6 +1378,17 @@ func c09Check(ctx *core.Ctx, c *c09Case, p *c09Pending) {
 		return map[string]any{"case": cs, "plan": kind, "output": strings.Join(o, " "), "calls": fmt.Sprint(calls[:min(len(calls), 50)])}
 	}
 	sig := fmt.Sprintf(" path=%s", c.Path)
+	if c.DedupeIn {
+		sig = " inner-dedupe" + sig
+	}
+	ctx.Hist("inner-dedupe", strconv.FormatBool(c.DedupeIn))
+	if c.Evolve != 0 {
+		// some inputs are converted to the schema of the merge
+		sig = " converted" + sig
+		ctx.Hist("schema-evolution", fmt.Sprintf("inputs-without-the-new-column=%s", c09Bucket(bits.OnesCount(c.Evolve))))
+	} else {
+		ctx.Hist("schema-evolution", "none")
+	}
 	if c.Nest != "" {
 		// a merged row group (or merged reader) is itself an input of a merge
 		sig = " nested" + sig
@@ -1258,6 +1433,26 @@ func c09Check(ctx *core.Ctx, c *c09Case, p *c09Pending) {
 					"case": canon[:min(len(canon), 3000)], "request": req[:min(len(req), 6000)], "impl": want, "model": ans})
 			}
 		})
+	}
+	// L2: rowGroupInterleavesChunks / rowGroupDropsRows / rowGroupReadsChunksInOrder on the trees of views
+	// this case built (inputs of the outermost merge and its result) against the mirror in MergeShape.lean
+	if p != nil && err == nil {
+		asked := map[string]bool{}
+		for _, sh := range c.shapes {
+			if asked[sh[0]] || len(sh[0]) > 4000 {
+				continue
+			}
+			asked[sh[0]] = true
+			req, want := "merge.shape "+sh[0], sh[1]
+			ctx.Hist("l2-shape", sh[0][:1]+" "+want[3:])
+			p.reqs = append(p.reqs, req)
+			p.pend = append(p.pend, func(ans string) {
+				if ans != want {
+					ctx.Fail("L2", "shape-mirror", "rowGroupInterleavesChunks / rowGroupDropsRows / rowGroupReadsChunksInOrder (in this order) of a tree of row-group views differ from the Lean mirror", map[string]any{
+						"case": canon[:min(len(canon), 3000)], "request": req, "impl": want, "model": ans})
+				}
+			})
+		}
 	}
 	if c.factKey != "" {
 		// obligation: an assumed hypothesis of the planner theorems does not hold of a real row group
@@ -1445,6 +1640,42 @@ func c09WrapKeys(r *rand.Rand, c *c09Case) {
 	}
 }
 
+// schema evolution: one case in six merges into a schema with one more optional column than some of its
+// inputs have (c09Case.Evolve), so that MergeRowGroups converts those inputs. In a nest one inner merge
+// is (when possible) made of such inputs only: its result, a merged row group in the older schema, is
+// then converted by the enclosing merge.
+func c09EvolveSchema(r *rand.Rand, c *c09Case) {
+	if c.Path == "readers" || len(c.Inputs) == 0 || r.Intn(6) != 0 {
+		return
+	}
+	// not next to a repeated column: Convert gives an added column the levels of its closest sibling, the
+	// known C12 finding F19 (added-column-borrows-sibling-levels), which is not a matter of merging
+	c.Lists = false
+	for i := range c.Inputs {
+		if r.Intn(2) == 0 {
+			c.Evolve |= 1 << i
+		}
+	}
+	if c.Nest != "" {
+		if t, err := c09ParseTree(c.Nest); err == nil {
+			var inner []*c09Tree
+			for _, k := range t.kids {
+				if k.leaf < 0 {
+					inner = append(inner, k)
+				}
+			}
+			if len(inner) > 0 {
+				for _, l := range inner[r.Intn(len(inner))].leaves(nil) {
+					c.Evolve |= 1 << l
+				}
+			}
+		}
+	}
+	if c.Evolve == 0 {
+		c.Evolve = 1 << r.Intn(len(c.Inputs))
+	}
+}
+
 var c09Patterns = []string{"disjoint", "touching", "nested", "identical", "staggered", "random"}
 
 func c09GenCase(r *rand.Rand) *c09Case {
@@ -1488,6 +1719,7 @@ func c09GenCase(r *rand.Rand) *c09Case {
 	c.Inputs = c09GenInputs(r, c.Cols, k, c.Pattern, lens, nullRate)
 	c.Lists = r.Intn(3) == 0
 	c09WrapKeys(r, c)
+	c09EvolveSchema(r, c)
 	c09GenSeeks(r, c)
 	return c
 }
@@ -1580,6 +1812,7 @@ func c09GenRefineCase(r *rand.Rand) *c09Case {
 	c.Inputs = inputs
 	c.Lists = r.Intn(3) == 0
 	c09WrapKeys(r, c)
+	c09EvolveSchema(r, c)
 	c09GenSeeks(r, c)
 	return c
 }
@@ -1605,7 +1838,7 @@ func c09GenCompoundRefineCase(r *rand.Rand) *c09Case {
 	c.Dedupe = r.Intn(10) == 0
 	c.Path = []string{"rows", "rows", "write", "copyrows"}[r.Intn(4)]
 	min := parquet.VerifMinStreamedRegionRows
-	width := int64(2 + r.Intn(6))  // distinct first-column values per row group
+	width := int64(2 + r.Intn(6))    // distinct first-column values per row group
 	bdom := int64(50 + r.Intn(3000)) // domain of the second column
 	inputs := make([][]c09Row, k)
 	for i := 0; i < k; i++ {
@@ -1658,6 +1891,7 @@ func c09GenCompoundRefineCase(r *rand.Rand) *c09Case {
 	c.Inputs = inputs
 	c.Lists = r.Intn(3) == 0
 	c09WrapKeys(r, c)
+	c09EvolveSchema(r, c)
 	c09GenSeeks(r, c)
 	return c
 }
@@ -1713,7 +1947,22 @@ func c09GenNestedCase(r *rand.Rand, big bool) *c09Case {
 		c09WrapKeys(r, c)
 	}
 	c.Pattern = "nested-" + c.Pattern
-	c.Nest = c09GenTree(r, len(c.Inputs)).text()
+	tree := c09GenTree(r, len(c.Inputs))
+	if !c.Dedupe && r.Intn(5) == 0 {
+		// deduplicating views as inputs of a merge that keeps duplicates; also views of a single row group
+		c.DedupeIn = true
+		if c.MCols == 0 {
+			c.MCols = len(c.Cols)
+		}
+		for i, k := range tree.kids {
+			if k.leaf >= 0 && r.Intn(2) == 0 {
+				tree.kids[i] = &c09Tree{leaf: -1, kids: []*c09Tree{k}}
+			}
+		}
+	}
+	c.Nest = tree.text()
+	c.Evolve = 0
+	c09EvolveSchema(r, c)
 	return c
 }
 
@@ -2447,7 +2696,7 @@ func c09DedupeChecks(ctx *core.Ctx, r *rand.Rand, d *drv.Driver, p *c09Pending, 
 
 // ---------------------------------------------------------------- replay of a recorded case
 
-var c09CanonRe = regexp.MustCompile(`^((?:col\(opt=\w+,desc=\w+,nf=\w+(?:,wrap=\d)?\) )+)mcols=(\d+) storage=(\w+) pagebuf=(\d+) batches=\[([\d ]*)\] dedupe=(\w+) path=(\w+) lists=(\w+) seeks=\[([\d ]*)\] (?:nest=(\S+) )?inputs=(.*)$`)
+var c09CanonRe = regexp.MustCompile(`^((?:col\(opt=\w+,desc=\w+,nf=\w+(?:,wrap=\d)?\) )+)mcols=(\d+) storage=(\w+) pagebuf=(\d+) batches=\[([\d ]*)\] dedupe=(\w+) path=(\w+) lists=(\w+) seeks=\[([\d ]*)\] (?:evolve=([01]+) )?(inner-dedupe )?(?:nest=(\S+) )?inputs=(.*)$`)
 
 // c09ParseCanon rebuilds a case from its canonical text (the "case" field of a failure detail)
 func c09ParseCanon(text string) (*c09Case, error) {
@@ -2470,13 +2719,19 @@ func c09ParseCanon(text string) (*c09Case, error) {
 		v, _ := strconv.Atoi(f)
 		c.Seeks = append(c.Seeks, v)
 	}
-	c.Nest = m[10]
+	for i, ch := range m[10] {
+		if ch == '1' {
+			c.Evolve |= 1 << i
+		}
+	}
+	c.DedupeIn = m[11] != ""
+	c.Nest = m[12]
 	if c.Nest != "" {
 		if _, err := c09ParseTree(c.Nest); err != nil {
 			return nil, err
 		}
 	}
-	for i, in := range strings.Split(m[11], "/") {
+	for i, in := range strings.Split(m[13], "/") {
 		var rows []c09Row
 		if in != "-" {
 			for j, rt := range strings.Split(in, ",") {
@@ -2504,7 +2759,7 @@ func c09ParseCanon(text string) (*c09Case, error) {
 // ---------------------------------------------------------------- entry point
 
 func RunC09(ctx *core.Ctx) {
-	ctx.SetRule("k in 0..9 sorted inputs (empty, disjoint, touching, nested, identical, staggered, random key ranges; duplicates within and across inputs; asc/desc; nullable keys nulls first/last; one to three key columns, merge by a prefix or by all; key columns as top-level leaves or as leaves of optional / required groups (a null key with its group absent or with the group present); optionally a repeated payload column (lists of 0-4 values) that sorts before the key columns by name; forward SeekToRow histories on the merged rows; large compound-key files whose first key column is shared by many rows across row-group and page boundaries) as sorted Buffers and as files (PageBufferSize 1..1MiB, with page index) x read batch sizes 1..300 x MergeRowGroups.Rows / MergeRowReaders / Writer.WriteRowGroup / CopyRows, with and without DropDuplicatedRows; trees of nested merges (the result of a merge as an input of another, depth <= 3, MergeRowGroups and MergeRowReaders); chunked-source MergeRowReaders runs, also with sources answering (0, nil), compared call by call with the Lean mirror; runLength and DedupeRowReader against mirror and spec; exhaustive small scope. Distinct by canonical case text, non-trivial = at least two non-empty inputs (merges) / at least two rows or batches (runLength, dedupe)")
+	ctx.SetRule("k in 0..9 sorted inputs (empty, disjoint, touching, nested, identical, staggered, random key ranges; duplicates within and across inputs; asc/desc; nullable keys nulls first/last; one to three key columns, merge by a prefix or by all; key columns as top-level leaves or as leaves of optional / required groups (a null key with its group absent or with the group present); schema evolution (the merge schema has one more optional column than some inputs, which the merge converts, in nests also the merged result of an inner merge); nests whose inner merges drop duplicated rows while the outermost keeps them (deduplicating views, also of a single row group, as inputs); optionally a repeated payload column (lists of 0-4 values) that sorts before the key columns by name; forward SeekToRow histories on the merged rows; large compound-key files whose first key column is shared by many rows across row-group and page boundaries) as sorted Buffers and as files (PageBufferSize 1..1MiB, with page index) x read batch sizes 1..300 x MergeRowGroups.Rows / MergeRowReaders / Writer.WriteRowGroup / CopyRows, with and without DropDuplicatedRows; trees of nested merges (the result of a merge as an input of another, depth <= 3, MergeRowGroups and MergeRowReaders); chunked-source MergeRowReaders runs, also with sources answering (0, nil), compared call by call with the Lean mirror; runLength and DedupeRowReader against mirror and spec; exhaustive small scope. Distinct by canonical case text, non-trivial = at least two non-empty inputs (merges) / at least two rows or batches (runLength, dedupe)")
 
 	// F12 as a fixed corpus-like case so that it is reported deterministically
 	fixed := []*c09Case{
@@ -2565,6 +2820,33 @@ func RunC09(ctx *core.Ctx) {
 			}
 		}
 	}
+	// a merged result in an older schema, converted by the enclosing merge: Merge(Merge(evens, odds), D)
+	{
+		var ev, od []c09Row
+		for i := 0; i < 50; i++ {
+			ev = append(ev, c09Row{K: [3]int64{int64(2 * i)}, Inp: 0, Seq: int32(i)})
+			od = append(od, c09Row{K: [3]int64{int64(2*i + 1)}, Inp: 1, Seq: int32(i)})
+		}
+		for _, path := range []string{"rows", "write"} {
+			fixed = append(fixed, &c09Case{Cols: []c09Col{{}}, MCols: 1, Storage: "buffer", PageBuf: 4096, Batches: []int{10}, Path: path, Pattern: "fixed-converted",
+				Nest: "[[0,1],2]", Evolve: 3, Inputs: [][]c09Row{ev, od, {{K: [3]int64{200}, Inp: 2}}}})
+		}
+	}
+	// a deduplicating view of one file (every key twice) merged, keeping duplicates, with a file that
+	// overlaps its middle: the refinement planner would slice the view by the row positions of its chunks
+	{
+		var a, b []c09Row
+		for i := 0; i < 4000; i++ {
+			a = append(a, c09Row{K: [3]int64{int64(i / 2)}, Inp: 0, Seq: int32(i)})
+		}
+		for i := 0; i < 100; i++ {
+			b = append(b, c09Row{K: [3]int64{int64(1900 + i)}, Inp: 1, Seq: int32(i)})
+		}
+		for _, path := range []string{"rows", "write"} {
+			fixed = append(fixed, &c09Case{Cols: []c09Col{{}}, MCols: 1, Storage: "file", PageBuf: 256, Batches: []int{100}, Path: path, Pattern: "fixed-inner-dedupe",
+				Nest: "[[0],1]", DedupeIn: true, Inputs: [][]c09Row{a, b}})
+		}
+	}
 	for _, c := range fixed {
 		c09Check(ctx, c, nil)
 	}
@@ -2601,13 +2883,14 @@ func RunC09(ctx *core.Ctx) {
 
 	workers := 14
 	var wg sync.WaitGroup
-	nL1 := ctx.Scale(4000, 100000)
-	nRefine := ctx.Scale(40, 600)
-	nCompound := ctx.Scale(70, 1000)
-	nNested := ctx.Scale(1500, 30000)
-	nNestedBig := ctx.Scale(16, 300)
-	nL2 := ctx.Scale(6000, 150000)
-	nL2C := ctx.Scale(2500, 50000)
+	// thorough is sized to stay well under 10 minutes on a loaded machine (round 3: 854 s under load)
+	nL1 := ctx.Scale(4000, 36000)
+	nRefine := ctx.Scale(40, 300)
+	nCompound := ctx.Scale(70, 500)
+	nNested := ctx.Scale(1500, 15000)
+	nNestedBig := ctx.Scale(16, 150)
+	nL2 := ctx.Scale(6000, 55000)
+	nL2C := ctx.Scale(2500, 25000)
 	for w := 0; w < workers; w++ {
 		wg.Add(1)
 		go func(w int) {
@@ -2655,17 +2938,17 @@ func RunC09(ctx *core.Ctx) {
 			}
 			p.flush(ctx, d, true)
 			if w == 2 {
-				c09ZeroChecks(ctx, ctx.Rand("c09-zero"), d, p, ctx.Scale(3000, 40000))
+				c09ZeroChecks(ctx, ctx.Rand("c09-zero"), d, p, ctx.Scale(3000, 20000))
 				p.flush(ctx, d, true)
 			}
 			if w == 1 {
-				c09CmpChecks(ctx, ctx.Rand("c09-cmp"), d, p, ctx.Scale(20000, 300000))
+				c09CmpChecks(ctx, ctx.Rand("c09-cmp"), d, p, ctx.Scale(20000, 150000))
 				p.flush(ctx, d, true)
 			}
 			if w == 0 {
-				c09RunLengthChecks(ctx, ctx.Rand("c09-runlength"), d, p, ctx.Scale(20000, 300000))
+				c09RunLengthChecks(ctx, ctx.Rand("c09-runlength"), d, p, ctx.Scale(20000, 150000))
 				p.flush(ctx, d, true)
-				c09DedupeChecks(ctx, ctx.Rand("c09-dedupe"), d, p, ctx.Scale(5000, 100000))
+				c09DedupeChecks(ctx, ctx.Rand("c09-dedupe"), d, p, ctx.Scale(5000, 50000))
 				p.flush(ctx, d, true)
 			}
 		}(w)
@@ -2704,6 +2987,9 @@ func c09Exhaustive(ctx *core.Ctx, workers int) {
 					keys := [][]int64{lists[j.a], lists[j.b], l3}
 					for b := 1; b <= 5; b++ {
 						c09L2Check(ctx, &c09L2Case{keys: keys, batches: []int{b}}, p)
+						if maxLen > 2 && (b == 3 || b == 4) {
+							continue // thorough: the row-group form runs with batch sizes 1, 2 and 5 (dedupe)
+						}
 						oc := &c09Case{Cols: c09L2Cols, MCols: 1, Storage: "buffer", PageBuf: 4096, Batches: []int{b}, Path: "rows", Pattern: "exhaustive", Dedupe: b == 5}
 						for i, ks := range keys {
 							in := make([]c09Row, len(ks))
